@@ -78,6 +78,7 @@ def run_locked(env, scn, op, locked_rel, no_lock, groups):
     c.calls, c.kill = A.abstract_trace(r["trace"], vs)
     oracle = A.oracle_from_calls(c.calls)
     c.nfaults = 0
+    c.extra = {}
     qs = set(inv0) | {A.canon_temp(p, vs) for p in c.inv1}
     for cm in cmds:
         if "tmp" in cm:
